@@ -5,13 +5,15 @@ import Rough.Lemmas.Client
 namespace Rough.Props.C03
 open Rough Rough.Spec Rough.ServerSpec
 
-/-- the requests the client generates are exactly 1024 bytes and are classified `must` by the
+/-- the requests the client generates are 1024 bytes (classic) / 1024 + 12 bytes of RFC frame
+    (draft-13), hence inside the server's 1024..1500 window, and are classified `must` by the
     reference classification of a server whose key is the pinned one (or any server if no key) -/
 theorem C03_request_wellformed (H : Bytes → Bytes) (hH : ∀ x, (H x).length = 64) (ver : Version)
     (nonce : Bytes) (hn : nonce.length = ver.nonceLen) (pk? : Option Bytes)
     (hpk : ∀ pk, pk? = some pk → pk.length = 32) (srv : Bytes)
     (hsrv : ∀ pk, pk? = some pk → srv = (H ((0xff : UInt8) :: pk)).take 32) :
-    ∃ req, Client.makeRequest H ver nonce pk? = .ok req ∧ req.length = 1024 ∧
+    ∃ req, Client.makeRequest H ver nonce pk? = .ok req ∧
+      req.length = (match ver with | .google => 1024 | .ietf => 1036) ∧
       RT.classifyRequest (protoOfVer ver) srv req = .must nonce ∧ RT.protoOf req = protoOfVer ver :=
   Lemmas.Client.request_wellformed H hH ver nonce hn pk? hpk srv hsrv
 
